@@ -106,6 +106,10 @@ class State:
         self.escaped = set()   # alloca terms whose address was handed to unknown code
         self.locals = set()    # extra bases that behave like locals (sret result slot)
         self.defined = []      # (base, lo, hi) byte ranges written on this path (monotone: kills do not remove)
+        self.memver = 0        # bumped whenever memory may have changed (value numbering of pure calls)
+        self.pure = {}         # (callee, args, versions) -> result term
+        self.killed = []       # bases whose memory may have changed, in order
+        self.globalver = 0     # bumped when anything non-local may have changed
 
     def clone(self):
         s = State.__new__(State)
@@ -127,6 +131,10 @@ class State:
         s.escaped = set(self.escaped)
         s.locals = self.locals
         s.defined = list(self.defined)
+        s.memver = self.memver
+        s.pure = dict(self.pure)
+        s.killed = list(self.killed)
+        s.globalver = self.globalver
         return s
 
     def fresh(self):
@@ -361,7 +369,20 @@ class State:
         self.stype[(base, off)] = ty
         self.defined.append((base, off, off + size))
 
+    def version_for(self, args):
+        """how often memory related to these argument terms may have changed so far"""
+        n = 0
+        bases = [ptr_key(a)[0] for a in args if isinstance(a, tuple)]
+        for k in self.killed:
+            for b in bases:
+                if derives(b, k) or derives(k, b):
+                    n += 1
+                    break
+        return (n, self.globalver)
+
     def _kill_range(self, base, lo, hi):
+        self.memver += 1
+        self.killed.append(base)
         for k in [k for k in self.store if k[0] == base and lo <= k[1] < hi]:
             del self.store[k]
             self.stype.pop(k, None)
@@ -434,6 +455,8 @@ class State:
         self.kill_reachable([base])
 
     def kill_reachable(self, bases):
+        self.memver += 1
+        self.killed.extend(bases)
         reach = self.reachable_bases(bases)
         for k in [k for k in self.store if any(derives(k[0], r) for r in reach)]:
             del self.store[k]
@@ -446,6 +469,8 @@ class State:
                 del self.copies[r]
 
     def kill_all_nonlocal(self):
+        self.memver += 1
+        self.globalver += 1
         keep_bases = set()
         for b in [k[0] for k in self.store] + list(self.zero) + list(self.copies):
             if (b[0] == "alloca" or b in self.locals) and b not in self.escaped:
@@ -655,6 +680,11 @@ class Executor:
             return ("idx", base, ins.d.get("src_type"), idx)
         if op == "load":
             p = T(ops[0])
+            if isinstance(p, tuple) and p[0] == "g":
+                g = self.prog.global_for(f, p[1])
+                iv = g.get("init_val") if g and g.get("constant") else None
+                if isinstance(iv, Const):
+                    return ("c", iv.v)
             v = st.load(p, ins.type, ins)
             st.events.append(Event("load", ins, f, (p,), v, len(st.facts), None, None, None, depth))
             return v
@@ -778,6 +808,16 @@ class Executor:
             env[ins.id] = ("void",)
             return
         ckind = "lib" if callee in self.prog.funcs else "ext"
+        pure = False
+        if ckind == "lib" and ins.type != "void":
+            S0 = self.eff.summ[callee]
+            pure = not S0["writes"] and not S0["allocates"] and not S0["frees"] and not S0["callbacks"] and not S0["ext"]
+            if pure:
+                pk = (callee, actuals, st.version_for(actuals))
+                if pk in st.pure:
+                    res_t = st.pure[pk]
+                else:
+                    st.pure[pk] = res_t
         ev = Event("call", ins, f, actuals, res_t, len(st.facts), callee, ckind, dict(pointee=pointee), depth)
         st.events.append(ev)
         if ckind == "lib":
